@@ -1,2 +1,30 @@
-(* C16 (statements follow) *)
-From GJS Require Import Base Regex Schema GoType Gen.
+(* C16 - output-shaping options change only what they name.
+   Statements only; every proof is `exact <lemma>`; Print Assumptions under each.
+   In the model the generator's result for a schema is [gen idf cf defs ...]: its only inputs are the
+   identifier function [idf] (capitalisations, title / root-type naming), the two flags of [cfg]
+   (min-sized ints, only-models) and the schema.  --tags and --extra-imports are not inputs at all:
+   tags are printed from (property name, required) - both in the field record - and the YAML
+   formatter re-uses the validator list (C17); so those two options cannot change types, plans or
+   JSON behaviour by construction.  What remains to prove is --only-models. *)
+From GJS Require Import Base Schema GoType Gen GenP.
+
+(* --only-models never attaches a method ... *)
+Theorem C16_only_models_no_method : forall mn scope sub c t0 b0 t b,
+  is_named_ty t0 = false -> declare (mkCfg mn true) scope sub c (t0, b0) = Done (t, b) -> no_method t = true.
+Proof. exact declare_only_models_no_method. Qed.
+Print Assumptions C16_only_models_no_method.
+
+(* ... and declares exactly the type a full run declares (same name, fields, underlying type, bounds left in the node) *)
+Theorem C16_only_models_same_type : forall mn scope sub c t0 b0 t b t' b',
+  is_named_ty t0 = false ->
+  declare (mkCfg mn false) scope sub c (t0, b0) = Done (t, b) -> declare (mkCfg mn true) scope sub c (t0, b0) = Done (t', b') ->
+  strip_plan t = strip_plan t' /\ b = b'.
+Proof. exact declare_only_models_same_type. Qed.
+Print Assumptions C16_only_models_same_type.
+
+(* naming options reach the generator only through [idf]: field and type names are a function of it,
+   the JSON keys are not *)
+Theorem C16_names_only : forall defs c self fname k p ty bp,
+  f_json (fst (fst (make_field defs c self fname k p ty bp))) = k.
+Proof. intros. unfold make_field. destruct (c_default (s_con p)); [reflexivity|]. destruct (mem k (c_required c)); reflexivity. Qed.
+Print Assumptions C16_names_only.
